@@ -190,7 +190,8 @@ fn main() {
 	let maxn = (PeriodType::MAX as usize - 1).min(254);
 	for name in SUBJ {
 		// closure over the order alphabet: covers every stream length and every weak order pattern
-		for n in 1..=(if thorough { 7 } else { 5 }) {
+		let wide_quick = std::env::var("VERIF_WIDE").as_deref() == Ok("1");
+		for n in 1..=(if thorough { 7 } else if wide_quick { 4 } else { 5 }) {
 			let al = alpha::v_order(n);
 			let sys = MSys {
 				name: format!("{name}/closure/n={n}"),
